@@ -53,8 +53,13 @@ META = {
                  'sqlrepr string-literal escaping is modelled locally (per-character map) and tied by string equality',
                  'index texts are hand-modelled and tied by string equality (join-table and ALTER TABLE constraint texts are also '
                  'translated and proved equal to the model)',
-                 'not translated: SQLObject.createTable / dropTable / createJoinTables (stateful; catalogue model + executed SQLite '
-                 'scenarios), the __init__ methods of the column classes, DBAPI.createSQL (sqlmeta.createSQL)'],
+                 'stateful part: SQLObject.dropTable / createJoinTables / dropJoinTables and the connection classes\' statement '
+                 'methods are translated and run against the catalogue model (world-threading reading Model/PyDdlW.lean; the '
+                 'statement reader execSQL of Model/DdlXW.lean is hand-written specification) and proved equal to dropTableG / '
+                 'createLinks / dropLinks; SQLObject.createTable / createIndexes / addColumn / delColumn are translated but only '
+                 'their connection-level statements are proved (createTable itself stays on the catalogue model + executed '
+                 'SQLite scenarios); not translated: sqlmeta.addColumn / delColumn (class surgery), the __init__ methods of the '
+                 'column classes, DBAPI.createSQL (sqlmeta.createSQL)'],
     'assumptions': ['well-formed identifiers (decidable hypothesis `declWF`): table / id / db names and foreign-key target names are '
                     'non-empty words without blanks, quotes, commas or parentheses and are not constraint keywords; defaultSQL is a '
                     'self-contained keyword-free fragment for the reader; the renderer did not refuse the declaration (EnumCol on '
